@@ -5,7 +5,9 @@ import (
 	"github.com/johannesboyne/gofakes3"
 	"os"
 	"path/filepath"
+	"sort"
 	"strings"
+	"unicode/utf8"
 )
 
 func init() { runners["c10"] = runC10 }
@@ -174,11 +176,68 @@ func runC10(tier string, seed uint64) {
 			for pb, pks := range preludeKeys {
 				stored[pb] = append(stored[pb], pks...)
 			}
+			// a listing is addressed to its bucket whatever its prefix spells: it shows keys (and groups of keys)
+			// of that bucket that begin with the prefix, and every key held under the prefix is among them
+			listCheck := func(b, pre, delim string, v2 bool) {
+				lr := s.List(ListReq{Bucket: b, Prefix: pre, Delim: delim, MaxKeys: -1, V2: v2})
+				if lr.Resp.Status == 200 {
+					have := map[string]bool{}
+					for _, sk := range stored[b] {
+						have[sk] = true
+					}
+					var hidden []string
+					for sk := range have {
+						if !strings.HasPrefix(sk, pre) || strings.HasPrefix(sk, "/") || !utf8.ValidString(sk) {
+							continue
+						}
+						if hr := do(s.h, Req{Method: "HEAD", Path: "/" + pathEscape(b) + "/" + pathEscape(sk)}); hr.Status != 200 {
+							continue // deleted since
+						}
+						shown := false
+						for _, lk := range lr.Keys {
+							shown = shown || lk == sk
+						}
+						for _, lp := range lr.Prefixes {
+							shown = shown || strings.HasPrefix(sk, lp)
+						}
+						if !shown {
+							hidden = append(hidden, sk)
+						}
+					}
+					if len(hidden) > 0 {
+						sort.Strings(hidden)
+						emit("c10", "BAD", hs(fmt.Sprintf("S:listing-hides-a-stored-key %s: listing bucket %q with prefix %q shows neither %q nor a common prefix they lie under (keys %q, common prefixes %q)", kind, b, pre, hidden, lr.Keys, lr.Prefixes)))
+					}
+					var alien []string
+					for _, lk := range lr.Keys {
+						if !have[lk] || !strings.HasPrefix(lk, pre) {
+							alien = append(alien, lk)
+						}
+					}
+					for _, lp := range lr.Prefixes {
+						ok := false
+						for sk := range have {
+							ok = ok || strings.HasPrefix(sk, lp)
+						}
+						if !ok || !strings.HasPrefix(lp, pre) {
+							alien = append(alien, lp)
+						}
+					}
+					if len(alien) > 0 {
+						emit("c10", "BAD", hs(fmt.Sprintf("S:listing-shows-what-the-bucket-does-not-hold %s: listing bucket %q with prefix %q shows %q, which are not keys written to that bucket under that prefix", kind, b, pre, alien)))
+					}
+				}
+			}
 			var pending [][3]string // bucket, key, upload id
 			// an object uploaded with every kind of header a copy treats specially (the ACL is not carried
 			// over; the rest is): it is the source of the first copy of every history
 			s.Put(buckets[0], "lead", []byte("copy-source"), []KV{{"X-Amz-Acl", "public-read"}, {"X-Amz-Meta-Src", "1"}, {"Content-Type", "text/x-src"}, {"X-Amz-Storage-Class", "STANDARD"}})
 			stored[buckets[0]] = append(stored[buckets[0]], "lead")
+			if modelled {
+				// (the key-value backends hold a key that differs from it by a leading slash as a key of its own)
+				s.Put(buckets[0], "/lead", []byte("another key"), nil)
+				stored[buckets[0]] = append(stored[buckets[0]], "/lead")
+			}
 			before := c10Snapshot(s, probe)
 			if !isSingle(kind) {
 				// buckets whose names begin with another bucket's name are buckets of their own: creating
@@ -324,31 +383,13 @@ func runC10(tier string, seed uint64) {
 						// (and groups of keys) of that bucket that begin with the prefix
 						other := buckets[rng.Intn(len(buckets))]
 						pre := []string{"../" + other + "/", "../", "./", "a/../", "../../metadata/" + other + "/", "../../buckets/" + other + "/", other + "/", "..", "a/./", ".hid"}[rng.Intn(10)] // (a prefix that begins with the delimiter is outside the scope of the listing properties: D32)
-						lr := s.List(ListReq{Bucket: b, Prefix: pre, Delim: []string{"/", ""}[rng.Intn(2)], MaxKeys: -1, V2: rng.Bool()})
-						if lr.Resp.Status == 200 {
-							have := map[string]bool{}
-							for _, sk := range stored[b] {
-								have[sk] = true
-							}
-							var alien []string
-							for _, lk := range lr.Keys {
-								if !have[lk] || !strings.HasPrefix(lk, pre) {
-									alien = append(alien, lk)
-								}
-							}
-							for _, lp := range lr.Prefixes {
-								ok := false
-								for sk := range have {
-									ok = ok || strings.HasPrefix(sk, lp)
-								}
-								if !ok || !strings.HasPrefix(lp, pre) {
-									alien = append(alien, lp)
-								}
-							}
-							if len(alien) > 0 {
-								emit("c10", "BAD", hs(fmt.Sprintf("S:listing-shows-what-the-bucket-does-not-hold %s: listing bucket %q with prefix %q shows %q, which are not keys written to that bucket under that prefix", kind, b, pre, alien)))
+						if len(stored[b]) > 0 && rng.Bool() {
+							// the beginning of a stored key: everything stored under it has to be shown, too
+							if sk := stored[b][rng.Intn(len(stored[b]))]; !strings.HasPrefix(sk, "/") {
+								pre = sk[:1+rng.Intn(len(sk))]
 							}
 						}
+						listCheck(b, pre, []string{"/", ""}[rng.Intn(2)], rng.Bool())
 						addressed = nil
 						break
 					}
@@ -361,6 +402,17 @@ func runC10(tier string, seed uint64) {
 					hs(fmt.Sprintf("%s bucket=%q key=%q status=%d", kind, b, k, r.Status)))
 				nontrivial(fmt.Sprint(kind, b, k, r.Status))
 				before = after
+			}
+			// every key held at the end, looked for under the beginning of its own name
+			for _, lb := range buckets[:min(2, len(buckets))] {
+				seen := map[string]bool{}
+				for _, sk := range stored[lb] {
+					if pre := sk[:min(2, len(sk))]; !seen[pre] && !strings.HasPrefix(sk, "/") && utf8.ValidString(pre) {
+						seen[pre] = true
+						listCheck(lb, pre, "/", len(seen)%3 == 0)
+						listCheck(lb, pre, "", len(seen)%3 == 1)
+					}
+				}
 			}
 			if !isSingle(kind) && s.st.Ext == nil {
 				// last step (the model has no such operation): Minio's force-delete of a bucket with content.
